@@ -36,6 +36,12 @@ CHECKS["C17"] = ("vaultsim", "exploration",
   "entropy (snacl's prng) is replaced by a seeded stream through an add-only overlay probe; scrypt parameters are the fast ones. " + TB,
   "DESIGN.md §6 C17, §10")
 
+CHECKS["C20"] = ("walletsim", "exploration",
+  "deterministic simulation: whole wallet + simulated node; at every broadcast (initial and each re-broadcast after a restart) the backend answer class is a seeded fault (accept, already-in-mempool, already-confirmed, fee/generic/conflict rejection, transport error, subscription failure); before/after snapshot oracle and re-offer oracle on the backend's received calls",
+  "Seeded wallet histories (receipts, sends incl. chained unconfirmed ones, built-then-published transactions, leases, blocks, restarts) with a backend answer class injected at every broadcast. A failed attempt must leave balance, spendable set and unconfirmed set as before (the tx and its unconfirmed descendants forgotten, unrelated ones kept); 'already in mempool' must keep it recorded once; an accepted send must be recorded with inputs unspendable and own outputs counted once; after every restart each still-unconfirmed wallet transaction must have been offered to the backend again, parents first. Exploration over histories x answer classes.",
+  "answer classes are kept consistent with node state (a node that already has the tx answers so); a database failure of the removal transaction itself is not injected (the statement does not cover it). " + TB,
+  "DESIGN.md §3.4, §6 C20")
+
 NOT_APPLICABLE = [
  {"property_id": "C07", "reason": "pure function of its input (outputs, fee rate, coin list, change script): no schedule, clock, I/O, fault or history for a simulator to own; the deciding technique would be input enumeration/property-based testing, which is a different family (DESIGN.md §7)"},
 ]
